@@ -70,8 +70,13 @@ impl Tree {
     }
 }
 
-/// All trees, simplest first. The first `QUICK_TREES` have <= 3 modules.
-pub const TREE_PATHS: [&[&str]; 13] = [
+/// All trees, simplest first. The first `QUICK_TREES` have <= 3 modules
+/// (every shape with <= 3 modules, plus the labelling `a.a` where a child
+/// carries its parent's name). Then every shape with 4 modules and depth <= 2
+/// (three children; two children and a grandchild; a child with two
+/// grandchildren) and the labellings where a grandchild carries the name of
+/// its parent, of its uncle, or of a child of `pkg`.
+pub const TREE_PATHS: [&[&str]; 11] = [
     &[],
     &["a"],
     &["a", "b"],
@@ -79,11 +84,9 @@ pub const TREE_PATHS: [&[&str]; 13] = [
     &["a", "a.a"],
     &["a", "b", "d"],
     &["a", "b", "a.c"],
-    &["a", "b", "b.c"],
     &["a", "a.c", "a.d"],
     &["a", "b", "a.b"],
     &["a", "b", "a.a"],
-    &["a", "a.a", "a.c"],
     &["a", "b", "b.a"],
 ];
 pub const QUICK_TREES: usize = 5;
